@@ -138,6 +138,21 @@ class Gen:
             else:
                 sub = self.model(depth - 1)
             items.append([key, sub])
+        # a copy() of an earlier component in which only a fixed value differs (same priors)
+        if self.consts and rng.random() < 0.2:
+            cands = []
+            for j, (k, sub) in enumerate(items):
+                if sub["t"] == "model":
+                    consts = [a for a, kind, _ in SIGNATURES[sub["cls"]] if kind == "float" and sub["kw"][a]["t"] == "const"]
+                    if consts:
+                        cands.append((j, consts))
+            if cands and form in ("list", "append", "dict", "kwargs"):
+                j, consts = rng.choice(cands)
+                arg = rng.choice(consts)
+                key = str(len(items)) if form in ("list", "append") else "copy"
+                newc = {"t": "const", "v": (rng.randint(-12, 12) / 4.0 + 0.125).hex()}
+                items.append([key, {"t": "copy", "of": j, "set": [[arg, newc]]}])
+                self.features.add("copy-with-different-constant")
         return {"t": "coll", "form": form, "items": items}
 
     def program(self):
@@ -160,7 +175,7 @@ class Gen:
                 return dict(e, kw={k: ren(v) for k, v in e["kw"].items()}, extra=[[k, ren(v)] for k, v in e["extra"]])
             if e["t"] == "coll":
                 return dict(e, items=[[k, ren(v)] for k, v in e["items"]])
-            return e
+            return e   # const, copy
         return {"pool": pool, "root": ren(root), "features": sorted(self.features)}
 
 
@@ -186,8 +201,22 @@ def expected_tree(e, names=None):
             attrs.append([k, expected_tree(sub)])
         return {"t": "model", "cls": e["cls"], "attrs": attrs}
     if t == "coll":
-        return {"t": "coll", "attrs": [[k, expected_tree(sub)] for k, sub in e["items"]]}
+        return {"t": "coll", "attrs": [[k, expected_tree(sub)] for k, sub in resolve_copies(e)["items"]]}
     raise ValueError(t)
+
+
+def resolve_copies(coll):
+    """Replace {"t": "copy"} items of a collection by the model they denote."""
+    import copy as _copy
+    items = []
+    for k, sub in coll["items"]:
+        if sub["t"] == "copy":
+            src = _copy.deepcopy(items[sub["of"]][1])
+            for arg, newc in sub["set"]:
+                src["kw"][arg] = newc
+            sub = src
+        items.append([k, sub])
+    return dict(coll, items=items)
 
 
 def same_tree(exp, got):
